@@ -221,12 +221,204 @@ def truth_family(_tier):
                   expected=n * len(TRUTH_SHAPES))
 
 
+
+# ---------------------------------------------------------------- sibling family
+
+def sibling_units():
+    """Depth <= 2 chain bodies (loops fully decorated, leaf log / continue) - the units placed side by side."""
+    out = []
+    for depth in (1, 2):
+        for idx in chains.chains(depth):
+            levels = chains.chain_levels(idx)
+            nl = sum(1 for c, _ in levels if c in chains.LOOPS)
+            for leaf in ((0, 2) if nl else (0,)):
+                decos = [3 if c in chains.LOOPS else 0 for c, _ in levels]
+                out.append((depth, {'levels': levels, 'decos': decos, 'leaf': leaf, 'style': 'tape', 'scope': 'global'}))
+    return out
+
+
+SIB_CONTEXTS = ('global', 'function', 'loop')
+
+
+def build_siblings(specs, context):
+    body = []
+    for k, spec in enumerate(specs):
+        sub = chains.build(spec)
+        body.extend(_rename_logs(sub, f's{k}'))
+    if context == 'function':
+        return [('func', 'ff', [], False, body), ('assign', 'rr', ('call', 'ff', [])), ('expr', ('call', 'systemLog', [('str', 'end')]))]
+    if context == 'loop':
+        return [('for', 'w', None, ('call', 'arrayNew', [('num', 1), ('num', 2)]), body), ('expr', ('call', 'systemLog', [('str', 'end')]))]
+    return body
+
+
+def _rename_logs(body, tag):
+    """Make log texts and loop variables of sibling units distinct."""
+    def ren_e(e):
+        k = e[0]
+        if k == 'str':
+            return ('str', tag + e[1])
+        if k == 'var' and (e[1].startswith('v') or e[1].startswith('i') or e[1].startswith('n')) and e[1][1:].isdigit():
+            return ('var', tag + e[1])
+        if k == 'call':
+            return ('call', e[1], [ren_e(a) for a in e[2]])
+        if k == 'bin':
+            return ('bin', e[1], ren_e(e[2]), ren_e(e[3]))
+        if k in ('not', 'neg', 'grp'):
+            return (k, ren_e(e[1]))
+        return e
+
+    def ren_n(n):
+        return tag + n if n and n[0] in 'vin' and n[1:].isdigit() else n
+
+    def ren_b(b):
+        out = []
+        for s in b:
+            k = s[0]
+            if k == 'expr':
+                out.append(('expr', ren_e(s[1])))
+            elif k == 'assign':
+                out.append(('assign', ren_n(s[1]), ren_e(s[2])))
+            elif k == 'if':
+                out.append(('if', [(ren_e(c), ren_b(sub)) for c, sub in s[1]], ren_b(s[2]) if s[2] is not None else None))
+            elif k == 'while':
+                out.append(('while', ren_e(s[1]), ren_b(s[2])))
+            elif k == 'for':
+                out.append(('for', ren_n(s[1]), ren_n(s[2]) if s[2] else None, ren_e(s[3]), ren_b(s[4])))
+            elif k == 'return':
+                out.append(('return', ren_e(s[1]) if s[1] is not None else None))
+            else:
+                out.append(s)
+        return out
+    return ren_b(body)
+
+
+def check_siblings(case, acc):
+    units = sibling_units()
+    specs = [units[i][1] for i in case['units']]
+    body = build_siblings(specs, case['context'])
+    return check_program(body, case, acc, case['bound'])
+
+
+def sibling_cases(tier):
+    units = sibling_units()
+    d1 = [i for i, (d, _) in enumerate(units) if d == 1]
+    allu = list(range(len(units)))
+    out = []
+    if tier == 'quick':
+        pairs = [(a, b) for a in allu for b in d1] + [(a, b) for a in d1 for b in allu if units[b][0] == 2]
+        contexts = ('global', 'function')
+    else:
+        pairs = [(a, b) for a in allu for b in allu]
+        contexts = SIB_CONTEXTS
+    for ctx in contexts:
+        for a, b in pairs:
+            out.append({'units': [a, b], 'context': ctx, 'bound': 2})
+    if tier == 'thorough':
+        for ctx in ('global', 'function'):
+            for t in itertools.product(d1, repeat=3):
+                out.append({'units': list(t), 'context': ctx, 'bound': 2})
+    return out
+
+
+def fam_siblings(arg):
+    acc = Acc('siblings')
+    for case in arg:
+        acc.cases += 1
+        check_siblings(case, acc)
+    if arg:
+        c = arg[len(arg) // 2]
+        acc.sample(dict(c, source=ast.source(build_siblings([sibling_units()[i][1] for i in c['units']], c['context']))))
+    return acc.result()
+
+
+# ---------------------------------------------------------------- function call graphs
+
+FUNC_BODIES = ('plain', 'return-in-for', 'break-in-while', 'continue-in-for', 'return-in-while-in-if')
+FUNC_SHAPES = ('chain', 'diamond', 'recursion')
+FUNC_PLACES = ('top', 'in-if', 'in-loop')
+
+
+def func_body(kind, name, callee):
+    log = lambda k: ('expr', ('call', 'systemLog', [('str', name + k)]))  # noqa: E731
+    call = [('assign', 'cv', ('call', callee, [('var', 'pa')])), ('expr', ('call', 'systemLog', [('bin', '+', ('str', name + '<-'), ('var', 'cv'))]))] if callee else []
+    cc = ('call', 'cc', [])
+    if kind == 'plain':
+        return [log('a')] + call + [('return', ('bin', '+', ('str', name + ':'), ('var', 'pa')))]
+    if kind == 'return-in-for':
+        return [log('a'), ('for', 'v', 'i', ('call', 'pk', []), [log('b'), ('if', [(cc, [('return', ('var', 'v'))])], None)] + call + [log('c')]), ('return', ('str', name + '-end'))]
+    if kind == 'break-in-while':
+        return [log('a'), ('while', cc, [log('b')] + call + [('if', [(cc, [('break',)])], None), log('c')]), ('return', ('str', name + '-end'))]
+    if kind == 'continue-in-for':
+        return [log('a'), ('for', 'v', None, ('call', 'pk', []), [('if', [(cc, [('continue',)])], None), log('b')] + call), ('return', ('str', name + '-end'))]
+    return [log('a'), ('if', [(('not', cc), [('while', cc, [log('b')] + call + [('return', ('str', name + '-w'))])])], [log('e')]), ('return', ('str', name + '-end'))]
+
+
+def build_funcs(case):
+    kinds = case['kinds']
+    shape = case['shape']
+    place = case['place']
+    if shape == 'chain':
+        callees = ['f2', 'f3', None]
+    elif shape == 'diamond':
+        callees = ['f2', 'f3', None]
+    else:
+        callees = [None, None, None]
+    defs = []
+    for k, name in enumerate(('f1', 'f2', 'f3')):
+        body = func_body(FUNC_BODIES[kinds[k]], name, callees[k])
+        if shape == 'diamond' and name == 'f1':
+            body = [('assign', 'dv', ('call', 'f3', [('str', 'd')]))] + body
+        if shape == 'recursion' and name == 'f1':
+            body = [('if', [(('call', 'cc', []), [('return', ('bin', '+', ('str', 'rec:'), ('call', 'f1', [('var', 'pa')])))])], None)] + body
+        defs.append(('func', name, ['pa'], False, body))
+    main = [('assign', 'rr', ('call', 'f1', [('str', 'x')])), ('expr', ('call', 'systemLog', [('bin', '+', ('str', 'rr='), ('var', 'rr'))]))]
+    if shape == 'recursion':
+        main += [('assign', 'r2', ('call', 'f2', [('num', 2)])), ('assign', 'r3', ('call', 'f3', [('num', 3)]))]
+    if place == 'top':
+        return defs + main
+    if place == 'in-if':
+        return [('if', [(('not', ('call', 'cc', [])), defs + main)], [('expr', ('call', 'systemLog', [('str', 'skipped')]))])]
+    return [('for', 'w', None, ('call', 'arrayNew', [('num', 1), ('num', 2)]), defs + main), ('expr', ('call', 'systemLog', [('str', 'end')]))]
+
+
+def check_funcs(case, acc):
+    return check_program(build_funcs(case), case, acc, case['bound'])
+
+
+def func_cases(tier):
+    out = []
+    nb = len(FUNC_BODIES)
+    for shape in FUNC_SHAPES:
+        for place in FUNC_PLACES:
+            for kinds in itertools.product(range(nb), repeat=3):
+                if tier == 'quick' and place != 'top' and kinds[2] != 0:
+                    continue
+                out.append({'kinds': list(kinds), 'shape': shape, 'place': place, 'bound': 2 if tier == 'quick' else 3})
+    return out
+
+
+def fam_funcs(arg):
+    acc = Acc('funcs')
+    for case in arg:
+        acc.cases += 1
+        check_funcs(case, acc)
+    if arg:
+        acc.sample(dict(arg[0], source=ast.source(build_funcs(arg[0]))))
+    return acc.result()
+
+
 def families(tier):
     load_impl()
-    return [chain_family(tier), small_family(tier), truth_family(tier)]
+    from ..engine.shard import split  # pylint: disable=import-outside-toplevel
+    sc = sibling_cases(tier)
+    fc = func_cases(tier)
+    return [chain_family(tier), small_family(tier), truth_family(tier),
+            Family('siblings', fam_siblings, split(sc, 64), 'ordered pairs (thorough: all pairs and depth-1 triples) of depth <= 2 chain bodies side by side in one block, at global scope, inside a function, inside a loop; deviation bound 2', expected=len(sc)),
+            Family('funcs', fam_funcs, split(fc, 48), 'three functions: 5 body kinds each x call graph {chain, diamond, bounded recursion} x definition site {top level, inside an if block, inside a loop body}', expected=len(fc))]
 
 
-_CHECKS = {'chain': check_chain, 'small': check_small, 'truth': check_truth}
+_CHECKS = {'chain': check_chain, 'small': check_small, 'truth': check_truth, 'siblings': check_siblings, 'funcs': check_funcs}
 
 
 def replay(family, case):
